@@ -132,3 +132,39 @@ def get_num_tracked_samples(c):
     c.ensures(lambda: (c.result == 0) == z3.And(0 <= u, u <= n, z3.Not(nosc)), "accepted_iff")
     c.ensures(lambda: z3.Implies(c.result == 0, c.new.get(outp) == h.arr(h.get(self_, "num_tracked_samples"))[u]), "value")
     c.assigns(outp)
+
+
+# ------------------------------------------------------------------------------------------ tree sequence row getters
+def _getter(tname, table, err, extra=None):
+    from .tables_rows import NodeView
+    from .tables_rows_generic import View
+
+    @contract("trees.c", "tsk_treeseq_get_" + tname, ["self", "index", tname])
+    def getter(c):
+        """C09: a row identifier is accepted exactly when 0 <= index < number of rows (the row count itself, negative
+        and huge values are refused with the table's out-of-bounds code); nothing is indexed before that check"""
+        self_, idx, rowp = c.arg("self"), c.arg("index"), c.arg(tname)
+        h, E = c.old, c.E
+        c.requires(z3.And(z3.Not(h.isnull(self_)), z3.Not(h.isnull(rowp)), h.len(rowp) >= 1))
+        tp = h.get(self_, "tables")
+        c.requires(z3.And(z3.Not(h.isnull(tp)), tp.off == 0, h.len(tp) >= 1))
+        V = NodeView(h, h.sub(tp, "nodes")) if table == "nodes" else View(h, h.sub(tp, table), table)
+        c.requires(V.rep())
+        n = V.n
+        for arr in (extra or []):
+            p = h.get(self_, arr)       # per-row arrays built by tsk_treeseq_init: one entry per row of the table
+            c.requires(z3.Implies(n > 0, z3.And(z3.Not(h.isnull(p)), p.off == 0, h.len(p) >= n)))
+        c.ensures(lambda: (c.result == 0) == z3.And(0 <= idx, idx < n), "accepted_iff_a_row_of_the_table")
+        c.ensures(lambda: z3.Or(c.result == 0, c.result == getattr(E, err)), "codes")
+        c.assigns(rowp)
+    return getter
+
+
+_getter("node", "nodes", "TSK_ERR_NODE_OUT_OF_BOUNDS")
+_getter("edge", "edges", "TSK_ERR_EDGE_OUT_OF_BOUNDS")
+_getter("migration", "migrations", "TSK_ERR_MIGRATION_OUT_OF_BOUNDS")
+_getter("mutation", "mutations", "TSK_ERR_MUTATION_OUT_OF_BOUNDS", ["site_mutations_mem"])
+# (tsk_treeseq_get_site / _get_individual load a pointer out of an array of pointers - site_mutations[index],
+# individual_nodes[index] - which the memory model of the generator does not cover: not under contract)
+_getter("population", "populations", "TSK_ERR_POPULATION_OUT_OF_BOUNDS")
+_getter("provenance", "provenances", "TSK_ERR_PROVENANCE_OUT_OF_BOUNDS")
